@@ -84,3 +84,20 @@ def split_blocks(vals, props):
 
 def bits(vs):
     return [fhex(v) for v in vs]
+
+
+def corr_lines(lines, variant="plain"):
+    """run the same command lines through the C++ harness and the Lean driver; -> dict in the shape of corr.run_corr's result"""
+    st = corr.Stats()
+    rc1, out1, err1 = proto.run_harness(lines, variant=variant) if "variant" in proto.run_harness.__code__.co_varnames else proto.run_harness(lines)
+    rc2, out2, err2 = proto.run_driver(lines)
+    mism = []
+    if rc1 != 0 or rc2 != 0 or len(out1) != len(lines) or len(out2) != len(lines):
+        mism.append({"cmd": "(session)", "impl": "rc=%s lines=%d %s" % (rc1, len(out1), err1[-200:]), "model": "rc=%s lines=%d %s" % (rc2, len(out2), err2[-200:]), "why": "one side did not answer every command", "info": {}})
+    for line, a, b in zip(lines, out1, out2):
+        why = corr.compare_answers(a, b, st)
+        st.add(line.split()[0])
+        if why:
+            info = {"kind": line.split()[0]}
+            mism.append({"cmd": line, "impl": a[:600], "model": b[:600], "why": why, "info": info})
+    return {"cases": len(lines), "stats": st, "dist": {}, "mismatches": mism, "cmdfile": None, "lines": lines, "out_impl": out1, "out_model": out2}
